@@ -79,17 +79,17 @@ fn run_count(prop: &str, thorough: bool) -> u64 {
         "C03" => (40_000, 600_000),
         "C04" => (150_000, 2_000_000),
         "C05" | "C06" | "C07" | "C08" => (25_000, 400_000),
-        "C09" => (12_000, 200_000),
+        "C09" => (8_000, 150_000),
         "C10" => (4_000, 60_000),
         "C11" => (16_000, 300_000),
         "C12" => (12_000, 250_000),
-        "C13" => (30_000, 400_000),
-        "C14" => (30_000, 400_000),
+        "C13" => (20_000, 400_000),
+        "C14" => (20_000, 400_000),
         "C15" => (60_000, 1_000_000),
         "C16" => (30_000, 400_000),
         "C18" => (5_000, 80_000),
         "C19" => (50_000, 800_000),
-        "C20" => (2_500, 30_000),
+        "C20" => (2_000, 30_000),
         _ => (2_000, 50_000),
     };
     if thorough {
